@@ -7,6 +7,8 @@
 From Coq Require Import NArith List Bool Arith.
 From LC Require Import Base.Lib Gen.Editor_gen Model.Syllable Model.Composition Model.Conversion Model.Editor Model.EditorRun
      Model.EdInst Proofs.EditorWitness Proofs.PurityProofs.
+From Coq Require Import ZArith.
+From LC Require Import Model.CapiKeys Model.CapiConfig Model.CapiRun.
 Import ListNotations.
 Open Scope nat_scope.
 
@@ -94,3 +96,34 @@ Theorem C17_reset_fixed_example :
   cursor_after (then_run opened (ed_clear std_ops) after_reset) = Some 2.
 Proof. exact reset_fixed_example. Qed.
 Print Assumptions C17_reset_fixed_example.
+
+(* ---- through the C API (Model/CapiKeys.v, CapiRun.v) ----
+   chewing_Reset in EVERY state of the context yields the context made of a fresh editor with the same dictionaries,
+   tables, options, engine and layout (its pending keys cleared), the same keyboard, KB type and selection keys ... *)
+Theorem C17_chewing_Reset_is_a_fresh_context : forall c : cctx,
+  reset c = with_ed c (fresh_like lay_ops (cx_ed c)).
+Proof. reflexivity. Qed.
+Print Assumptions C17_chewing_Reset_is_a_fresh_context.
+
+(* ... hence every later sequence of C calls (any ints) gives on the reset context what it gives on that fresh one:
+   the same return values (they are part of the run's outcome) and the same final context, so every getter agrees *)
+Theorem C17_chewing_Reset_behaves_like_fresh : forall conv (c : cctx) ops,
+  crun conv (reset c) ops = crun conv (with_ed c (fresh_like lay_ops (cx_ed c))) ops.
+Proof. reflexivity. Qed.
+Print Assumptions C17_chewing_Reset_behaves_like_fresh.
+
+(* nothing of what was done before the reset survives except configuration and dictionaries: two contexts that
+   agree on those are indistinguishable after a reset by any later sequence of C calls *)
+Theorem C17_chewing_Reset_forgets_the_past : forall conv (c1 c2 : cctx) ops,
+  cx_kb c1 = cx_kb c2 -> cx_kbcompat c1 = cx_kbcompat c2 -> cx_sel c1 = cx_sel c2 ->
+  dict (sh (cx_ed c1)) = dict (sh (cx_ed c2)) -> so_clear lay_ops (syl (sh (cx_ed c1))) = so_clear lay_ops (syl (sh (cx_ed c2))) ->
+  abbr (sh (cx_ed c1)) = abbr (sh (cx_ed c2)) -> sym_sel (sh (cx_ed c1)) = sym_sel (sh (cx_ed c2)) ->
+  lifetime (sh (cx_ed c1)) = lifetime (sh (cx_ed c2)) -> opts (sh (cx_ed c1)) = opts (sh (cx_ed c2)) ->
+  engine (sh (cx_ed c1)) = engine (sh (cx_ed c2)) -> dirty (sh (cx_ed c1)) = dirty (sh (cx_ed c2)) ->
+  crun conv (reset c1) ops = crun conv (reset c2) ops.
+Proof.
+  intros conv c1 c2 ops Hk Hc Hs Hd Hy Ha Hm Hl Ho He Hq. f_equal.
+  unfold reset, with_ed, ml_clear. rewrite Hk, Hc, Hs. f_equal.
+  now apply (reset_forgets lay_ops).
+Qed.
+Print Assumptions C17_chewing_Reset_forgets_the_past.
